@@ -103,6 +103,8 @@ def connect_pair(service_a, service_b, config_a=None, config_b=None, compress=Tr
     ca = Connection(service_a, Channel(sa, compress=compress), config=config_a or {})
     cb = Connection(service_b, Channel(sb, compress=compress), config=config_b or {})
 
+    crashes = []          # (connection, exception) for everything but EOFError that ended a side's serving
+
     def pump(conn, stream):
         def f():
             if conn.closed or stream._closed:
@@ -124,8 +126,21 @@ def connect_pair(service_a, service_b, config_a=None, config_b=None, compress=Tr
                     conn.serve(0)
             except EOFError:
                 return False
+            except BaseException as e:
+                # something other than EOFError left this side's serving: its serving thread (serve_all / the waiting thread) would die
+                # with it and serve_all's `finally` would close - it must NOT travel on through the OTHER side's frames of this single
+                # stack as if it had been delivered. Harness-level exceptions (watchdogs, Ctrl-C) pass.
+                if type(e).__name__ in ("Hang", "Abort") or isinstance(e, (KeyboardInterrupt, MemoryError)) and not getattr(e, "_remote_tb", None) and type(e) in (KeyboardInterrupt, MemoryError):
+                    raise
+                crashes.append((conn, e))
+                try:
+                    conn.close()
+                except Exception:
+                    pass
+                return False
             return True
         return f
     sa.on_idle = pump(cb, sb)     # when A has nothing to read, let B serve
     sb.on_idle = pump(ca, sa)
+    ca._harness_crashes = cb._harness_crashes = crashes
     return ca, cb, sa, sb
